@@ -139,11 +139,15 @@ CHECKS = {
         note=TRUST + "time bound enforced by SIGALRM; the two network-backed functions (#property, #statements) are excluded.",
         ref="DESIGN.md section 4 C05"),
     "C08": dict(
-        technique="Coq proofs (frame arguments = expander's binding; expandTemplate binds the given table) + metamorphic oracle on the real frame API",
+        technique="Coq proofs (frame arguments = expander's binding; expandTemplate binds the given table; a flat call gives the page-level result under every expansion path) + metamorphic oracle on the real frame API",
         text="Theorems c08_frame_args_are_call_args (for all well-formed argument lists the make_frame/frame_args_index model "
              "equals the expander's argument map: positional from 1 verbatim, named trimmed) and "
              "c08_expand_template_binds_given_table (the 'k=v' arguments expandTemplate builds are bound back to exactly the "
-             "given table). frame.args, getParent (title and arguments through wrapper depth 1-2), preprocess, expandTemplate "
+             "given table); c08_expand_template_is_the_call_on_the_page: on the flat fragment of C04 (plain name and arguments, a "
+             "template of text and parameter references, or none) the expander model gives, under EVERY expansion path shorter "
+             "than the depth limit in which the template is not looping (the path inside a Lua callback included), exactly what "
+             "the same call gives written on the page - the transclusion rule's result. "
+             "frame.args, getParent (title and arguments through wrapper depth 1-2), preprocess, expandTemplate "
              "and callParserFunction are each compared on the real code with the expansion of the equivalent wikitext on the "
              "same context; frame.args also with the Coq model on the expanded argument texts.",
         note=TRUST + "preprocess/callParserFunction/parent equivalences are decided by execution (they share the expander), "
